@@ -85,7 +85,7 @@ def relations(M, rec, rng, n_nets, symvals):
         if shape == "allkinds":
             desc = g.all_kinds_network()
         else:
-            _, desc = g.network(shape, force=("vsl",) if it % 2 == 0 else ())
+            _, desc = g.network(shape, force=("vsl",) if it % 4 != 1 else ())
         pars = g.pars()
         ek = ("numpy", "numpy", "SX", "MX")[it % 4]
         for _draw in range(2 if ek == "numpy" else 1):
